@@ -5,7 +5,13 @@ import TextxVerif.Mult
 Body   B ::= {"k":"leaf"} | {"k":"asgn","a":n,"op":"="|"?="|"*="|"+="} | {"k":"seq","xs":[B]}
            | {"k":"alt","xs":[B]} | {"k":"opt","x":B} | {"k":"rep","plus":bool,"x":B} | {"k":"un","xs":[B]}
 Value  W ::= {"t":bool,"v":json}          (t = Python truthiness of the value)
-Event  E ::= {"a":n,"op":"="|"?="|"*="|"+=","vs":[W]}   (exactly one value for "=" and "?=")
+Kid    K ::= {"r":n,"t":bool,"v":json}   (child of a list assignment node: r = identity of the parsing
+                                            expression that made it, v = its converted value)
+Event  E ::= {"a":n,"op":"="|"?=","vs":[W]}            (exactly one value)
+           | {"a":n,"op":"*="|"+=","sep":n|null,"kids":[K]}   (the raw node: all children, sep = identity of the
+                                            separator match of the repeat modifiers; the model skips the
+                                            children made by it — `Mult.storeKids`)
+           | {"a":n,"op":"*="|"+=","vs":[W]}            (short form: no separator, every child a value)
 
 ops:
   {"op":"mult","body":B,"attrs":[n…]}
@@ -13,6 +19,7 @@ ops:
   {"op":"obj","body":B,"attrs":[n…],"trace":[E…]}
       → the same plus {"obj":O},  O ::= {"accepts":bool,"store":{"ok":[S…]}|{"err":"multAssign"|"crash"}}
         S ::= {"none":true} | {"scalar":json} | {"list":[json…]}
+        plus "lists":[[json…]…] — per list assignment node of the trace the values the model keeps
   {"op":"case","rules":[{"body":B,"attrs":[n…]}…],"objs":[{"rule":i,"trace":[E…]}…]}
       → {"rules":[static output per rule],"objs":[O…]}
 -/
@@ -39,16 +46,30 @@ partial def parseBody (j : Json) : Option Body := do
 def parseW (j : Json) : Option W := do
   pure (← getBool? j "t", ← getObj? j "v")
 
-def parseEv (j : Json) : Option (Ev W) := do
+def parseKid (j : Json) : Option (Kid W) := do
+  pure { rule := ← getNat? j "r", val := (← getBool? j "t", ← getObj? j "v") }
+
+/-- `"sep"` must be present for the raw form: a number or null -/
+def parseSep (j : Json) : Option (Option Nat) :=
+  match getObj? j "sep" with
+  | some Json.null => some none
+  | some x => (asNat? x).map some
+  | none => none
+
+def parseEv (j : Json) : Option (Raw W) := do
   let a ← getNat? j "a"
   let op ← parseOp (← getStr? j "op")
-  let vs ← (← getArr? j "vs").toList.mapM parseW
-  match op, vs with
-  | .plain, [v] => pure (.plain a v)
-  | .bool, [v] => pure (.bool a v)
-  | .star, vs => pure (.list a false vs)
-  | .plus, vs => pure (.list a true vs)
-  | _, _ => none
+  match op with
+  | .plain | .bool =>
+    match (← (← getArr? j "vs").toList.mapM parseW) with
+    | [v] => pure (if op == .plain then .plain a v else .bool a v)
+    | _ => none
+  | .star | .plus =>
+    match getArr? j "kids" with
+    | some ks => pure (.list a (op == .plus) (← parseSep j) (← ks.toList.mapM parseKid))
+    | none =>
+      let vs ← (← getArr? j "vs").toList.mapM parseW
+      pure (.list a (op == .plus) none (vs.map fun v => { rule := 0, val := v }))
 
 def multStr : M → String
   | .opt => "0..1" | .one => "1" | .zeroMore => "0..*" | .oneMore => "1..*"
@@ -69,13 +90,17 @@ def slotJson : Slot W → Json
   | .scalar v => Json.mkObj [("scalar", v.2)]
   | .list vs => Json.mkObj [("list", toJson (vs.map (·.2)))]
 
-def objOut (b : Body) (attrs : List Nat) (t : List (Ev W)) : Json :=
+def objOut (b : Body) (attrs : List Nat) (t : List (Raw W)) : Json :=
   let st : Json :=
-    match peek (store (fun w : W => w.1) (initHeap (multOf b) (fun _ => Slot.none)) t) attrs with
+    match peek (storeRaw (fun w : W => w.1) (initHeap (multOf b) (fun _ => Slot.none)) t) attrs with
     | .inr slots => Json.mkObj [("ok", toJson (slots.map slotJson))]
     | .inl .multAssign => Json.mkObj [("err", "multAssign")]
     | .inl .crash => Json.mkObj [("err", "crash")]
-  Json.mkObj [("accepts", toJson (accepts b t)), ("store", st)]
+  let lists : List Json := t.filterMap fun e =>
+    match e with
+    | .list _ _ sep ks => some (toJson ((kidVals sep ks).map (·.2)))
+    | _ => none
+  Json.mkObj [("accepts", toJson (accepts b (t.map Raw.ev))), ("store", st), ("lists", toJson lists)]
 
 def parseRule (j : Json) : Option (Body × List Nat) := do
   pure (← parseBody (← getObj? j "body"), ← getNatList? j "attrs")
